@@ -30,6 +30,8 @@ type Container struct {
 	serviceErrorHandleFunc ServiceErrorHandleFunction
 	router                 RouteSelector // default is a CurlyRouter (RouterJSR311 is a slower alternative)
 	contentEncodingEnabled bool          // default is false
+	// pattern -> the ServeMux on which it is registered for dispatch
+	mappedPatterns map[string]*http.ServeMux
 }
 
 // NewContainer creates a new Container using a new ServeMux and default router (CurlyRouter)
@@ -120,18 +122,18 @@ func (c *Container) addHandler(service *WebService, serveMux *http.ServeMux) boo
 		serveMux.HandleFunc("/", c.dispatch)
 		return true
 	}
-	// detect if registration already exists
-	alreadyMapped := false
-	for _, each := range c.webServices {
-		if each.RootPath() == service.RootPath() {
-			alreadyMapped = true
-			break
-		}
+	// detect if registration already exists ; WebServices can share the fixed part of their root path
+	patterns := []string{pattern}
+	if !strings.HasSuffix(pattern, "/") {
+		patterns = append(patterns, pattern+"/")
 	}
-	if !alreadyMapped {
-		serveMux.HandleFunc(pattern, c.dispatch)
-		if !strings.HasSuffix(pattern, "/") {
-			serveMux.HandleFunc(pattern+"/", c.dispatch)
+	for _, each := range patterns {
+		if c.mappedPatterns[each] != serveMux {
+			serveMux.HandleFunc(each, c.dispatch)
+			if c.mappedPatterns == nil {
+				c.mappedPatterns = map[string]*http.ServeMux{}
+			}
+			c.mappedPatterns[each] = serveMux
 		}
 	}
 	return false
